@@ -18,6 +18,12 @@ impl ReadBuffer {
         }
     }
 
+    /// discard any buffered bytes
+    pub(crate) fn clear(&mut self) {
+        self.begin = 0;
+        self.end = 0;
+    }
+
     pub(crate) fn len(&self) -> usize {
         self.end - self.begin
     }
